@@ -369,11 +369,14 @@ theorem recvViaReceiver_CA (c : Cfg) (fuel : Nat) : ∀ s, CA s → CA (recvViaR
     unfold recvViaReceiver
     simp only
     have hq := nextItem_CA c s h
+    have stop : ∀ s' : St, CA s' → CA (stopsEstablished s') := fun s' h' => CA_same s' _ (by simp) (by simp) h'
     split
     · exact hq
     · split
-      · exact setState_CA _ _ hq
-      · split <;> exact hq
+      · exact stop _ (setState_CA _ _ hq)
+      · split
+        · exact hq
+        · exact stop _ hq
     · exact ih _ hq
     · exact hq
     · exact hq
@@ -517,11 +520,14 @@ theorem recvViaReceiver_NC (c : Cfg) (fuel : Nat) : ∀ s, NC s → NC (recvViaR
     unfold recvViaReceiver
     simp only
     have hq := nextItem_NC c s h
+    have stop : ∀ s' : St, NC s' → NC (stopsEstablished s') := fun s' h' => NC_same s' _ (by simp) h'
     split
     · exact hq
     · split
-      · exact NC_step _ _ (.setState _) rfl hq (by intros; simp) (by intro a b hab; cases hab)
-      · split <;> exact hq
+      · exact stop _ (NC_step _ _ (.setState _) rfl hq (by intros; simp) (by intro a b hab; cases hab))
+      · split
+        · exact hq
+        · exact stop _ hq
     · exact ih _ hq
     · exact hq
     · exact hq
